@@ -22,9 +22,14 @@ NullTx == "null"    \* the empty transaction (CTransaction::IsNull)
 CB == "cb"
 \* non-coinbase universe: id = txid, w = witness variant (0 = no witness). a / a2 are twins: same txid, different witness.
 TxInfo == [a |-> [id |-> 1, w |-> 1], a2 |-> [id |-> 1, w |-> 2], b |-> [id |-> 2, w |-> 0], c |-> [id |-> 3, w |-> 0],
-           d |-> [id |-> 4, w |-> 1], x |-> [id |-> 5, w |-> 0], y |-> [id |-> 6, w |-> 1], null |-> [id |-> 9, w |-> 0]]
+           d |-> [id |-> 4, w |-> 1], x |-> [id |-> 5, w |-> 0], y |-> [id |-> 6, w |-> 1], null |-> [id |-> 9, w |-> 0],
+           \* the witness-stripped forms (same txid, no witness) of a / a2, d and y
+           as |-> [id |-> 1, w |-> 0], ds |-> [id |-> 4, w |-> 0], ys |-> [id |-> 6, w |-> 0]]
 Txs == DOMAIN TxInfo \ {NullTx}
 Twin(t) == IF t = "a" THEN "a2" ELSE IF t = "a2" THEN "a" ELSE t
+\* "cbs" = the coinbase without its witness (the witness reserved value): same txid, so the same merkle root
+CBS == "cbs"
+Strip(t) == CASE t \in {"a", "a2"} -> "as" [] t = "d" -> "ds" [] t = "y" -> "ys" [] t = CB -> CBS [] OTHER -> t
 
 \* collision classes (short id worlds): Rep(sw, t) = the transaction whose wtxid keys t
 SidWorlds == {"none", "xa", "xb", "xc", "xd", "bc", "aa2", "ya2", "xy"}
@@ -39,9 +44,10 @@ Rep(sw, t) ==
     [] sw = "xy" /\ t = "y" -> "x"
     [] OTHER -> t
 
-Txid(t) == IF t = CB THEN 0 ELSE TxInfo[t].id
-Wtxid(t) == IF t = CB THEN <<0, 0>> ELSE <<TxInfo[t].id, TxInfo[t].w>>
-HasWitness(t, commit) == IF t = CB THEN commit ELSE TxInfo[t].w # 0
+IsCb(t) == t \in {CB, CBS}
+Txid(t) == IF IsCb(t) THEN 0 ELSE TxInfo[t].id
+Wtxid(t) == IF t = CB THEN <<0, 0>> ELSE IF t = CBS THEN <<0, 9>> ELSE <<TxInfo[t].id, TxInfo[t].w>>
+HasWitness(t, commit) == IF t = CB THEN commit ELSE IF t = CBS THEN FALSE ELSE TxInfo[t].w # 0
 
 (* ------------------------------------------------------------------ symbolic merkle tree (consensus/merkle.cpp) *)
 \* (hashes are strings so that hashes of trees of different height can be compared)
@@ -58,9 +64,10 @@ WLeaves(list) == [i \in 1..Len(list) |-> IF i = 1 THEN "0" ELSE "w" \o ToString(
 Mutated(list, blk, commit, segwit) ==
   \/ Root(Ids(list)) # Root(Ids(blk))                       \* bad-txnmrklroot
   \/ Mut(Ids(list))                                         \* bad-txns-duplicate
-  \/ /\ list # <<>> /\ list[1] = CB                         \* (no coinbase in front: only the 64-byte rule, never hit here)
-     /\ IF segwit /\ commit
-        THEN Root(WLeaves(list)) # Root(WLeaves(blk))       \* bad-witness-merkle-match
+  \/ /\ list # <<>> /\ IsCb(list[1])                       \* (no coinbase in front: only the 64-byte rule, never hit here)
+     /\ IF segwit /\ commit                                \* the commitment is an OUTPUT of the coinbase: also the stripped one has it
+        THEN \/ list[1] = CBS                               \* bad-witness-nonce-size: the reserved value is gone
+             \/ Root(WLeaves(list)) # Root(WLeaves(blk))    \* bad-witness-merkle-match
         ELSE \E i \in 1..Len(list) : HasWitness(list[i], commit)    \* unexpected-witness
 
 (* ------------------------------------------------------------------ InitData *)
